@@ -203,8 +203,10 @@ struct RefResult
 using View = std::function<const FileVersion *(const std::string &normPath)>;
 
 // Is every transitive import of the root model (given as a spec living at rootPath) satisfiable?
-// unitsFlawsOnlyAtRoot: a units with a parser error of its own makes an import unsatisfiable only when the client's own
-// model imports it (used to recognise the listed finding C07-K1: units imports of library models are not all visited)
-RefResult referenceResolve(const FileSpec &root, const View &view, bool strict, bool unitsFlawsOnlyAtRoot = false);
+// libraryWalk: evaluate only what the importer visits below the client's own model (the listed finding C07-K1: in a library
+// model it follows the units an imported component names and the imported children of imported units, but neither what lies
+// below a non-imported units nor the units of non-imported components encapsulated by an imported one).  A closure that is
+// unsatisfiable in full but satisfiable along this walk is C07-K1, not a new finding.
+RefResult referenceResolve(const FileSpec &root, const View &view, bool strict, bool libraryWalk = false);
 
 } // namespace iw
